@@ -91,6 +91,16 @@ def symmetric_families(rng):
                 out.append((f"{name}+{k}iso", _skeleton(e, n, sym, lab)))
         lab = {rng.randrange(n): (0, 2)}
         out.append((f"{name}+rad", _skeleton(e, n, sym, lab)))
+        if n <= 24:
+            # one hydrogen on every skeleton atom (cubane, prismane, benzene ...): two classes, full symmetry kept
+            atoms = [(sym, 0, 0, 0)] * n + [("H", 0, 0, 0)] * n
+            bonds = [(a, b, 1) for a, b in e] + [(a, n + a, 1) for a in range(n)]
+            out.append((f"{name}H{n}", mol(atoms, bonds)))
+            k = rng.randrange(n)
+            atoms2 = list(atoms); atoms2[n + k] = ("H", 2, 0, 0)
+            out.append((f"{name}H{n}-D", mol(atoms2, bonds)))
+            atoms3 = list(atoms); atoms3[k] = ("N", 0, 0, 0)
+            out.append((f"{name}H{n}-aza", mol(atoms3, bonds)))
     for n in (3, 4, 5, 6, 8):
         add(f"cycle{n}", nx.cycle_graph(n))
     add("K4", nx.complete_graph(4)); add("K5", nx.complete_graph(5))
@@ -104,6 +114,12 @@ def symmetric_families(rng):
     add("isolated4", nx.empty_graph(4))
     add("shrikhande", _shrikhande()); add("rook4x4", nx.cartesian_product(nx.complete_graph(4), nx.complete_graph(4)))
     add("dodecahedron", nx.dodecahedral_graph())
+    # sandwich: two rings bound to one centre (ferrocene-like)
+    fer = nx.Graph()
+    fer.add_edges_from([(i, (i + 1) % 5) for i in range(5)] + [(5 + i, 5 + (i + 1) % 5) for i in range(5)] + [(i, 10) for i in range(10)])
+    G = nx.convert_node_labels_to_integers(fer)
+    atoms = [("C", 0, 0, 0)] * 10 + [("Fe", 0, 0, 0)] + [("H", 0, 0, 0)] * 10
+    out.append(("ferrocene", mol(atoms, [(a, b, 1) for a, b in G.edges] + [(i, 11 + i, 1) for i in range(10)])))
     return out
 
 
